@@ -124,12 +124,30 @@ func c14FollowUp(world *ledger.World, rng *rand.Rand, peer, synced *ledger.Node,
 			continue
 		}
 		amt := spice.Melange{Currency: uint64(rng.Intn(3)), SupplementaryCurrency: uint64(1 + rng.Intn(1000))}
-		kind := rng.Intn(6)
+		kind := rng.Intn(10)
 		if kind == 1 {
 			amt = spice.Melange{Currency: 1 << 50} // overdraft
 		}
-		t := world.NewTrx(from, to.Addr, amt, nil)
+		var data []byte
+		if rng.Intn(3) == 0 {
+			data = []byte("follow-up contract")
+			if rng.Intn(2) == 0 {
+				amt = spice.Melange{}
+			}
+		}
+		t := world.NewTrx(from, to.Addr, amt, data)
 		sealer := world.Sealers[rng.Intn(len(world.Sealers))]
+		// issuers the sealing rules know: the genesis wallet (node 0's), the peer's and the synced node's own wallets
+		switch kind {
+		case 6:
+			t = world.NewTrx(world.Nodes[0].Actor, to.Addr, amt, data)
+		case 7:
+			t = world.NewTrx(synced.Actor, to.Addr, amt, data)
+		case 8:
+			t = world.NewTrx(peer.Actor, to.Addr, amt, data)
+		case 9:
+			t = world.NewTrx(sealer, to.Addr, amt, data) // self sealed
+		}
 		v := ledger.ForgeVertex(sealer, t, l, r, wgt+1, world.Now())
 		switch kind {
 		case 2: // replay of an existing vertex
